@@ -23,7 +23,13 @@ func checkDecisionTable(c *Check, p *Prog, rule, key, pkg, fn string, ref func(i
 	x := NewExt(p, NewStore(), Config{})
 	sum := x.Summarize(f, nil, nil)
 	where := p.Pos(f.Pos())
-	if sum.NLoops > 0 || len(sum.Undecided) > 0 || len(sum.Params) != 1 || sum.Params[0].K != KSym {
+	// a table-driven formulation (first matching row of a small constant table) is unrolled into its rows
+	dropDeadObjects(x.S, sum)
+	unrollSmallLoops(x.S, sum)
+	collectConstTablesInto(p, x.S, sum)
+	nLoops := 0
+	sum.Top.AllLoops(func(*LoopS) { nLoops++ })
+	if nLoops > 0 || len(sum.Undecided) > 0 || len(sum.Params) != 1 || sum.Params[0].K != KSym {
 		c.Undecided(rule, key, where, "%s is not a loop-free function of one integer", fn)
 		return
 	}
